@@ -8,6 +8,7 @@ import (
 type GenOpts struct {
 	KeyTypes []string // key types the consumer's valid token can be signed with
 	Refs     []string // "kid", "jwk" or both (kid-xor-jwk worlds)
+	Near     bool     // the consumer binds key ids to identities: draw near-miss attacker identities
 }
 
 // AllAlgs is every algorithm name the generator puts into headers.
@@ -17,7 +18,7 @@ var weirdAlgs = []string{"-", "es256", "foo", "ES256 ", "ES-256", "HS256", "none
 
 // Templates names the attack templates of Gen, in the order they are weighted.
 var Templates = []string{"valid", "alg-none", "alg-hmac", "alg-swap", "sig-form", "mutate", "wrong-signer", "other-party",
-	"private-jwk", "multi-sig", "json-one", "reencode", "kid-games", "extra-headers", "free"}
+	"private-jwk", "multi-sig", "json-one", "reencode", "kid-games", "extra-headers", "free", "near-party", "near-party"}
 
 func subset(t *rapid.T, label string, pool []string, max int) []string {
 	n := rapid.IntRange(0, max).Draw(t, label+".n")
@@ -148,6 +149,13 @@ func Gen(t *rapid.T, o GenOpts) Variant {
 			s.Kid = rapid.SampledFrom([]string{"", "", Victim}).Draw(t, "kid")
 		}
 		v.Sigs = []SigSpec{s}
+	case "near-party":
+		// the attacker signs under its own, resolvable identity, which is a near miss of the victim's
+		s := SigSpec{Signer: Attacker}
+		if rapid.IntRange(0, 4).Draw(t, "extras") == 4 {
+			s.Inject = subset(t, "inject", keyInject, 1)
+		}
+		v.Sigs = []SigSpec{s}
 	case "private-jwk":
 		s := SigSpec{Signer: rapid.SampledFrom([]string{Victim, Attacker, Fresh}).Draw(t, "signer"), JWK: "signer-priv"}
 		if v.Ref == "kid" {
@@ -230,6 +238,14 @@ func Gen(t *rapid.T, o GenOpts) Variant {
 		if rapid.IntRange(0, 3).Draw(t, "setmut") == 3 {
 			v.Mut = genMut(t)
 		}
+	}
+	if o.Near {
+		// an unrelated attacker ("") is the simplest value; near-party always plays a near miss
+		pool := append([]string{"", ""}, NearKinds...)
+		if v.T == "near-party" {
+			pool = NearKinds
+		}
+		v.Near = rapid.SampledFrom(pool).Draw(t, "near")
 	}
 	// compose: encoding games on top of anything compact (a re-encoding never turns a bad token into a good one)
 	if v.T != "valid" && v.T != "reencode" && v.Ser == "compact" && len(v.Sigs) == 1 && rapid.IntRange(0, 5).Draw(t, "addenc") == 5 {
